@@ -35,6 +35,7 @@ from hippolyzer.lib.proxy.message_logger import (  # noqa: E402
     export_log_entries, import_log_entries)
 
 from .. import gen_msg, gen_spec  # noqa: E402
+from ..refs import wire  # noqa: E402
 from ..harness_http import HTTPRig, make_flow  # noqa: E402
 
 LEVEL = "exploration"
@@ -62,7 +63,7 @@ ASSUMPTIONS = [
 MUST_REACH = {"filter_evaluations": 20000, "filters_compiled": 1500, "true_verdicts": 2000, "false_verdicts": 2000,
               "type_mismatch_leaves_evaluated": 300, "subfield_leaves_evaluated": 100, "view_ops": 1500, "view_checks": 1500,
               "window_overflows": 100, "refilters_with_aged_out_visible": 20, "export_import_checked": 100,
-              "freeze_thaw_checked": 100, "entry_kinds_covered": 6, "directed_equality_pairs": 300, "directed_wildcard_subfield_leaves": 100, "tz_covered": 3}
+              "freeze_thaw_checked": 100, "untouched_lazy_freeze_thaw_checked": 100, "untouched_lazy_freeze_thaw_checked:split-runs": 20, "entry_kinds_covered": 6, "directed_equality_pairs": 300, "directed_wildcard_subfield_leaves": 100, "tz_covered": 3}
 
 PRIM = (int, float, bytes, str, type(None), tuple, TupleCoord)
 OPS = ["==", "!=", "^=", "$=", "~=", ">", ">=", "<", "<=", "&"]
@@ -985,6 +986,102 @@ def message_facts(msg, ser):
             "block_lists": {k: len(v) for k, v in msg.blocks.items()}}
 
 
+def _split_run_zero_code(body: bytes, rng) -> bytes:
+    """Legal zero-coding that is not the encoder's own: runs of zeros cut into several shorter runs."""
+    out = bytearray()
+    i = 0
+    while i < len(body):
+        if body[i]:
+            out.append(body[i])
+            i += 1
+            continue
+        j = i
+        while j < len(body) and body[j] == 0 and j - i < 255:
+            j += 1
+        run = j - i
+        while run:
+            k = 1 if rng.random() < 0.5 else rng.randint(1, run)
+            out += bytes([0, k])
+            run -= k
+        i = j
+    return bytes(out)
+
+
+def untouched_lazy(ctx, world, n):
+    """A datagram that arrived with deferred body parsing is logged and the entry frozen (what the logging wrapper does with every
+    entry) while nobody has looked at its body. The logged message is the datagram: the thawed message - and the live one, which the
+    proxy goes on to forward - still serialise to exactly those bytes, also when the sender's encoding is legal but not the one the
+    library would choose, and when the body does not fit the template at all."""
+    rng = ctx.rng
+    ser = UDPMessageSerializer()
+    for i in range(n):
+        tmpl = rng.choice(world.templates)
+        spec = gen_msg.limit_for_zerocode(rng, tmpl, {"max_var_len": 80, "small_block": 4, "p_extra": 0.1})
+        spec["acks"] = []
+        spec["flags"] &= ~0x10
+        variant = rng.choice(["as-encoded", "split-runs", "split-runs", "body-cut-short", "body-garbage"])
+        if spec["packet_id"] is None:
+            spec["packet_id"] = rng.randrange(1, 1 << 20)
+        try:
+            if variant == "split-runs":
+                spec["flags"] |= 0x80
+                plain = dict(spec, flags=spec["flags"] & ~0x80)
+                whole = wire.ref_encode(tmpl, plain)
+                data = bytes([spec["flags"] & 0xFF]) + whole[1:6] + _split_run_zero_code(whole[6:], rng)
+            else:
+                spec["flags"] &= ~0x80
+                data = wire.ref_encode(tmpl, spec)
+                head = 6 + len(spec["extra"]) + len(wire.msg_num_bytes(tmpl))
+                if variant == "body-cut-short":
+                    if len(data) <= head + 1:
+                        continue
+                    data = data[:rng.randint(head, len(data) - 1)]
+                elif variant == "body-garbage":
+                    data = data[:head] + bytes(rng.getrandbits(8) for _ in range(rng.randint(1, 30)))
+        except Exception:
+            continue
+        try:
+            live = world.lazy_deser.deserialize(data)
+            if bytes(ser.serialize(live)) != data:
+                ctx.count("lazy_messages_not_verbatim_before_logging")
+                continue
+        except Exception:
+            ctx.count("lazy_datagrams_refused")
+            continue
+        wit = {"kind": "untouched-lazy", "message": tmpl.name, "variant": variant, "datagram": data[:300]}
+        with_ctx = rng.random() < 0.5
+        entry = LLUDPMessageLogEntry(live, world.region if with_ctx else None, world.session if with_ctx else None)
+        try:
+            entry.freeze()
+        except Exception as e:
+            ctx.violation("freeze-thaw-raises:" + type(e).__name__, "freezing a logged message whose body nobody had looked at raised",
+                          dict(wit, exc=repr(e)[:200]))
+            continue
+        ctx.ev()
+        try:
+            forwarded = bytes(ser.serialize(live))
+        except Exception as e:
+            forwarded = repr(e)[:200]
+        if forwarded != data:
+            ctx.violation("freeze-changes-live-message", "after its log entry was frozen the message the proxy goes on to forward no "
+                          "longer serialises to the datagram that arrived", dict(wit, forwarded=forwarded[:300]))
+            continue
+        try:
+            thawed = bytes(ser.serialize(entry.message))
+            again = bytes(ser.serialize(entry.message))
+        except Exception as e:
+            ctx.violation("freeze-thaw-raises:" + type(e).__name__, "thawing a logged message whose body nobody had looked at raised",
+                          dict(wit, exc=repr(e)[:200]))
+            continue
+        if thawed != data or again != data:
+            ctx.violation("freeze-thaw-changes:wire", "a frozen and thawed entry no longer holds the logged message (its datagram)",
+                          dict(wit, thawed=thawed[:300]))
+            continue
+        ctx.count("untouched_lazy_freeze_thaw_checked")
+        ctx.count("untouched_lazy_freeze_thaw_checked:" + variant)
+        ctx.nontrivial(("untouched-lazy", tmpl.name, variant))
+
+
 def persistence(ctx, world, n):
     rng = ctx.rng
     ser = UDPMessageSerializer()
@@ -1132,6 +1229,7 @@ def run(ctx):
         semantics(ctx, world, ctx.pick(24, 160))
         view_histories(ctx, world, ctx.pick(40, 300), ctx.pick(40, 80))
         persistence(ctx, world, ctx.pick(80, 1000))
+        untouched_lazy(ctx, world, ctx.pick(60, 800))
     finally:
         world.close()
 
@@ -1145,5 +1243,6 @@ def replay(ctx, w):
         semantics(ctx, world, 3)
         view_histories(ctx, world, 3, 40)
         persistence(ctx, world, 30)
+        untouched_lazy(ctx, world, 200)
     finally:
         world.close()
